@@ -56,15 +56,21 @@ _EXPR_CLI = exprs.expressions(labels=LABELS, max_depth=5, chars=exprs.SAFE_CHARS
 _EXPR_API = exprs.expressions(labels=LABELS, max_depth=5,
                               chars=[c for c in map(chr, range(32, 127)) if c not in "'\\"])
 _EXPR_SMALL = exprs.expressions(labels=LABELS, max_depth=3)
+# operands of conditional directives: the comparison operators are not part of an operand
+_EXPR_COND = exprs.expressions(labels=LABELS, max_depth=3, max_value=1000, allow_shift=False, div_bias=True,
+                               chars=[c for c in exprs.SAFE_CHARS if c not in '<>=!'])
 
 
 @st.composite
 def _cases(draw, tier):
-    layer = draw(st.sampled_from(['api'] * 30 + ['cli']))
+    layer = draw(st.sampled_from(['api'] * 30 + ['cli', 'cli', 'cond', 'cond']))
+    if layer == 'cond':
+        return {'kind': 'wf', 'layer': 'cli', 'ast': draw(_EXPR_COND), 'sp': draw(st.sampled_from(['', ' ', ' '])),
+                'form': draw(st.integers(3, 4))}
     if draw(st.integers(0, 9)) < 7:
         ast = draw(_EXPR_CLI if layer == 'cli' else _EXPR_API)
         return {'kind': 'wf', 'layer': layer, 'ast': ast, 'sp': draw(st.sampled_from(['', ' ', ' ', '  ', '\t'])),
-                'form': draw(st.integers(0, 2))}
+                'form': draw(st.integers(0, 4))}
     ast = draw(_EXPR_SMALL)
     toks = exprs.tokens_of(ast)
     nmut = draw(st.integers(1, 2))
@@ -121,9 +127,26 @@ def _run_api(text):
         return ('rejected', type(e).__name__)
 
 
+def _run_cond(text, form, want):
+    """The expression as an operand of #if: names are preprocessor symbols here.  -> (matches, source, result)"""
+    lines = [f'#define {k} {v}' for k, v in LABELS.items()]
+    if form == 3:
+        lines.append(f'#if {text} == {want}')
+        expect = 1
+    else:
+        lines.append(f'#if {text}')
+        expect = 1 if want != 0 else 2
+    lines += ['.byte 1', '#else', '.byte 2', '#endif']
+    src = '\n'.join(lines) + '\n'
+    res = runner.run_forked(['compile', '-c', 'isa.json', '-o', 'out.bin', 'p.asm'], {'isa.json': ISA_TEXT, 'p.asm': src})
+    if res.klass == 'accepted':
+        return ('value', res.outputs.get('out.bin') == bytes([expect])), src, res
+    return (res.klass, res.exit_code), src, res
+
+
 def _run_cli(text, form):
     lines = [f'{k} = {v}' for k, v in LABELS.items()]
-    if form == 0 and not text.lstrip().startswith(("'", '"')):
+    if form == 0 and not text.lstrip().startswith('"'):
         lines.append(f'.8byte {text}')
     elif form == 1:
         lines += [f'v_res = {text}', '.8byte v_res']
@@ -160,6 +183,12 @@ def execute(case, ctx):
             got = _run_api(text)
             detail = {'text': text, 'expected': want, 'got': list(got)}
             cmpwant = want
+        elif case['form'] >= 3 and not any(c in text for c in '<>=!') and text.strip():
+            # as an operand of a conditional directive: evaluated by the preprocessor, compared as an integer
+            got, src, res = _run_cond(text.strip(), case['form'], want)
+            detail = {'text': text, 'expected': want, 'got': list(got), 'source': src, 'run': res.brief()}
+            cmpwant = True
+            classes.append('evaluated-in-a-condition')
         else:
             got, src, res = _run_cli(text, case['form'])
             detail = {'text': text, 'expected_mod_2_64': want % (1 << 64), 'got': list(got), 'source': src,
@@ -189,7 +218,9 @@ def execute(case, ctx):
         got = _run_api(text)
         detail = {'text': text, 'got': list(got)}
     else:
-        got, src, res = _run_cli(text, case['form'])
+        # directly after a data directive a text that begins with a quote may be a (well-formed) string instead
+        form = 1 if case['form'] == 0 and text.lstrip().startswith(("'", '"')) else case['form']
+        got, src, res = _run_cli(text, form)
         detail = {'text': text, 'got': list(got), 'source': src, 'run': res.brief()}
     if got[0] == 'value':
         findings.append(Finding('C07/malformed-given-a-value', detail))
